@@ -232,12 +232,20 @@ impl<F: Write + Seek> MiniAllocator<F> {
     ) -> io::Result<u32> {
         debug_assert_ne!(start_mini_sector, consts::END_OF_CHAIN);
         let mut last_mini_sector = start_mini_sector;
+        let mut num_steps = 0;
         loop {
-            let next = self.minifat[last_mini_sector as usize];
+            let next = self.next_mini_sector(last_mini_sector)?;
             if next == consts::END_OF_CHAIN {
                 break;
             }
             last_mini_sector = next;
+            num_steps += 1;
+            if num_steps > self.minifat.len() {
+                malformed!(
+                    "mini chain starting at mini sector {} has a loop",
+                    start_mini_sector
+                );
+            }
         }
         let new_mini_sector =
             self.allocate_mini_sector(consts::END_OF_CHAIN)?;
@@ -295,7 +303,12 @@ impl<F: Write + Seek> MiniAllocator<F> {
         // another regular sector to its chain.
         let new_start_sector =
             if mini_stream_start_sector == consts::END_OF_CHAIN {
-                debug_assert_eq!(mini_stream_len, 0);
+                if mini_stream_len != 0 {
+                    malformed!(
+                        "mini stream has length {} but no start sector",
+                        mini_stream_len
+                    );
+                }
                 self.directory.begin_chain(SectorInit::Zero)?
             } else {
                 if mini_stream_len % sector_len as u64 == 0 {
@@ -346,7 +359,7 @@ impl<F: Write + Seek> MiniAllocator<F> {
     ) -> io::Result<()> {
         let mut mini_sector = start_mini_sector;
         while mini_sector != consts::END_OF_CHAIN {
-            let next = self.minifat[mini_sector as usize];
+            let next = self.next_mini_sector(mini_sector)?;
             self.free_mini_sector(mini_sector)?;
             mini_sector = next;
         }
@@ -359,7 +372,7 @@ impl<F: Write + Seek> MiniAllocator<F> {
         &mut self,
         mini_sector: u32,
     ) -> io::Result<()> {
-        let next = self.minifat[mini_sector as usize];
+        let next = self.next_mini_sector(mini_sector)?;
         self.set_minifat(mini_sector, consts::END_OF_CHAIN)?;
         self.free_mini_chain(next)?;
         Ok(())
@@ -373,7 +386,13 @@ impl<F: Write + Seek> MiniAllocator<F> {
             .directory
             .open_chain(self.minifat_start_sector, SectorInit::Fat)?;
         let offset = (index as u64) * size_of::<u32>() as u64;
-        debug_assert!(chain.len() >= offset + size_of::<u32>() as u64);
+        if chain.len() < offset + size_of::<u32>() as u64 {
+            malformed!(
+                "MiniFAT chain is too short to hold entry {} ({} bytes)",
+                index,
+                chain.len()
+            );
+        }
         chain.seek(SeekFrom::Start(offset))?;
         chain.write_le_u32(value)?;
         if (index as usize) == self.minifat.len() {
